@@ -1,6 +1,9 @@
 """C17 - guarded allocations.
 1. TLC model-checks sys/GuardedAlloc with a scaled page (32 bytes, canary 16): every size 0..3 pages + 1,
-   every sequence of <= 4 protection changes / probes, layout invariants for all sizes.
+   every sequence of <= 4 protection changes / probes, layout invariants for all sizes.  sys/LayoutAll and
+   sys/AllocArrayAll state the same placement and overflow arithmetic on the real 64-bit word and the real page
+   sizes and are decided for EVERY size / (count, size) by Apalache (SMT); the 64-bit counterexamples of their
+   broken variants are replayed into the library (this is how finding F6 was found).
 2. Direction B: scripts (sizes around every page boundary, all protection sequences up to a bound, read and
    write probes at the canary, both ends and past the end, canary tampering, free from every state,
    oversized and overflowing requests) are executed on the real library by harness/alloc_driver.c; probes
@@ -16,7 +19,7 @@ LEVEL = "model_checking"
 PAGE = 4096
 
 
-def scenarios(rng, thorough):
+def scenarios(rng, thorough, extra_big=(), extra_arr=()):
     sizes = set(range(0, 49)) | {PAGE * k + d for k in (1, 2, 3) for d in range(-18, 2)}
     if thorough:
         sizes |= set(range(0, 3 * PAGE + 2, 1))
@@ -45,11 +48,15 @@ def scenarios(rng, thorough):
             sc.append("F" + rng.choice(["", "", "1", "2", "3"]))      # signal state of the freeing thread: default, SIGSEGV blocked / ignored / handled
             out.append(sc)
     big = ["B %x" % v for v in (2**64 - 1, 2**64 - 4 * PAGE, 2**64 - 4 * PAGE - 1, 2**64 - 4 * PAGE + 1, 2**63, 2**64 - 5 * PAGE, 2**48)]
+    # finding F6: the sizes just below the refusal margin, where 3 pages + PageRound(size + 16) is 2^64 or just below it
+    # (SIZE_MAX - 4 pages - k: the length wraps to 0 for k = 1..14), and the same region one page lower
+    big += ["B %x" % (2**64 - 1 - 4 * PAGE - k) for k in range(0, 19)] + ["B %x" % (2**64 - 1 - 5 * PAGE - k) for k in (-1, 0, 1, 14, 15, 16)]
+    big += ["B %x" % (2**64 - 1 - m * PAGE - 15) for m in (3, 6, 16, 17)] + ["B %x" % v for v in extra_big]
     arr = ["A %x %x" % (c, s) for c, s in ((2**32, 2**32), (2**32 + 1, 2**32), (2**63, 2), (2**63 + 1, 2), (3, (2**64 - 1) // 3 + 1), (3, (2**64 - 1) // 3),
                                          (2**64 - 1, 1), (2**64 - 1, 2), (1, 2**64 - 1), (0, 2**64 - 1), (2**64 - 1, 0), (7, 11), (0, 0), (4096, 3), (2**16, 2**48), (2**16 + 1, 2**48),
                                          # products that wrap to a few GiB, not smaller than either factor: a test on the wrapped product alone accepts them
                                          (2**32 + 1, 2**32 + 1), (0x100010000, 0xFFFF0002), (2**32 + 2, 2**32 + 3),
-                                         (2**32 + rng.randrange(1, 2**16), 2**32 + rng.randrange(1, 2**16)), (2**33 + 1, 2**31 + 1), (2**40 + 3, 2**24 + 1))]
+                                         (2**32 + rng.randrange(1, 2**16), 2**32 + rng.randrange(1, 2**16)), (2**33 + 1, 2**31 + 1), (2**40 + 3, 2**24 + 1)) + tuple(extra_arr)]
     out.append(big + arr)
     return out, sizes
 
@@ -68,10 +75,33 @@ def run(R):
         R.violation("AllocArray.tla: the overflow test of sodium_allocarray lets a wrapping product through or refuses a small one: " + ra.tail(30), ra.out, name="model")
     if not R.tlc("sys/AllocArray.tla", "MCAllocArrayBroken.cfg", workers=2, timeout=300).violated:
         raise vlib.MachineryError("vacuity: the wrapped-product overflow test is not rejected by NoWrap")
+    # unbounded companions (Apalache, SMT): the same arithmetic for EVERY 64-bit size / (count, size) and the real page
+    # sizes; each broken variant must be refuted, and the 64-bit witnesses of the refutations become inputs of the driver
+    extra_big, extra_arr = [], []
+    unb = {}
+    for mod, good, broken in (("sys/LayoutAll.tla", "ConstInit", ("ConstInitRoundUp", "ConstInitRoundDn", "ConstInitLimit4")),
+                              ("sys/AllocArrayAll.tla", "ConstInit", ("ConstInitWrapped", "ConstInitNoGuard"))):
+        ok, out, cex = R.apalache(mod, "AllOK", cinit=good, length=1)
+        if not ok:
+            R.violation("%s: the placement / overflow arithmetic of the guarded allocator breaks a layout fact for some 64-bit value "
+                        "(the specification states what utils.c computes; see the counterexample): %s" % (mod, cex[-1500:]), {"apalache": out[-4000:], "counterexample": cex}, name="unbounded")
+        nref = 0
+        for b in broken:
+            okb, outb, cexb = R.apalache(mod, "AllOK", cinit=b, length=0)
+            if okb:
+                raise vlib.MachineryError("vacuity: %s with %s is not refuted by Apalache" % (mod, b))
+            nref += 1
+            vals = {k: int(v) for k, v in re.findall(r"\b(size|count) = (\d+)", cexb.split("State0 ==")[-1].split("(*")[0])}
+            if "count" in vals and "size" in vals:
+                extra_arr.append((vals["count"], vals["size"]))
+            elif "size" in vals and vals["size"] >= 2**63:
+                extra_big.append(vals["size"])
+        unb[mod] = {"invariant": "AllOK", "holds_for": good, "broken_variants_refuted": nref}
     R.add("states", r.distinct + ra.distinct); R.add("transitions", r.generated + ra.generated)
+    R.cov["unbounded_smt"] = dict(unb, witnesses_replayed={"bigmalloc": [hex(v) for v in extra_big], "allocarray": [[hex(c), hex(z)] for c, z in extra_arr]})
     R.cov["model"] = {"module": "GuardedAlloc", "cfg": "MCGuardedAlloc.cfg", "distinct": r.distinct, "generated": r.generated, "broken_variants_rejected": 2,
                       "allocarray_model": {"module": "AllocArray", "word_bits": 9, "distinct": ra.distinct}}
-    scs, sizes = scenarios(rng, thorough)
+    scs, sizes = scenarios(rng, thorough, extra_big, extra_arr)
     exe = R.cc("alloc_driver", ["alloc_driver.c"], "native")
     nsh = 16
     shards = vlib.shard(scs, nsh)
